@@ -409,10 +409,15 @@ structure Variant where
       `Update`, rib_unit/unit.rs:788), `true` = repaired (a new one per payload, as bgp-in and
       bmp-in make one per message) -/
   perRoute : Bool
+  /-- bgp-in / bmp-in output stream: `true` = one `RotoOutputStream` per received message (the code
+      as written: created inside the UPDATE arm of `Processor::process`, inside
+      `RouterHandler::process_msg`), `false` = one for the whole session (a regression: the entry
+      under construction would survive from one message to the next) -/
+  perMsg : Bool := true
   deriving DecidableEq, Repr
 
-def Variant.asWritten : Variant := ⟨false, false⟩
-def Variant.repaired : Variant := ⟨true, true⟩
+def Variant.asWritten : Variant := ⟨false, false, true⟩
+def Variant.repaired : Variant := ⟨true, true, true⟩
 
 def setMpReach (e : Entry) (u : Upd) : Entry :=
   match u.mpReach with
@@ -501,6 +506,28 @@ def runRoutes (v : Variant) (scripts : List (List Op)) : List (List Out) :=
   (scripts.foldl (fun (acc : Stream × List (List Out)) ops =>
       let s := run v noBmp ops acc.1
       ({ s with msgs := [] }, acc.2 ++ [s.msgs])) (Stream.new, [])).2
+
+
+/-! ## Sessions: the per-message filter points over a whole session
+
+`Processor::process` (bgp-in) and `RouterHandler::read_from_router` → `process_msg` (bmp-in) loop
+over the messages of a session; every iteration creates its stream, calls the filter, drains. -/
+
+/-- the loop, with the stream either created per iteration or hoisted out of it -/
+def runMsgs (v : Variant) (calls : List (Bmp × List Op)) : List (List Out) :=
+  (calls.foldl (fun (acc : Stream × List (List Out)) c =>
+      let s := run v c.1 c.2 (if v.perMsg then Stream.new else acc.1)
+      ({ s with msgs := [] }, acc.2 ++ [s.msgs])) (Stream.new, [])).2
+
+/-- the session scripts: `if m.aspath_contains(tag) { a } else { b }` -/
+def branch (tag : Nat) (a b : List Op) (m : Bmp) : List Op :=
+  if (match m.view with | some u => aspathContains u tag | none => false) then a else b
+
+def runSession (v : Variant) (tag : Nat) (a b : List Op) (msgs : List Bmp) : List (List Out) :=
+  runMsgs v (msgs.map fun m => (m, branch tag a b m))
+
+/-- a BGP UPDATE as a message of a bgp-in session -/
+def bgpMsg (u : Upd) : Bmp := ⟨.routeMon, 0, some u⟩
 
 /-! ## The registered method table
 
